@@ -1,0 +1,38 @@
+//go:build verif
+
+// Contracts for record equality (duplicate.go, zduplicate.go, sanitize.go).  Comment-only file.
+//
+// The per-type comparison of every record type is matched structurally against the record schema
+// (obligations (*T).isDuplicate#schema: every RDATA field compared, names with the case-insensitive comparison,
+// addresses with IP.Equal, everything else exactly; TTL never).  Here: the header comparison, the name
+// comparison and the relation lemmas that make field-wise comparison an equivalence.
+
+package dns
+
+//@ lemma labeq_refl(s seq, p int, e int): labeq(s, p, e, s, p, e) [C20]
+//@ lemma labeq_sym(s seq, p int, e int, t seq, q int, f int): labeq(s, p, e, t, q, f) == labeq(t, q, f, s, p, e) [C20]
+//@ lemma labeq_trans(s seq, p int, e int, t seq, q int, f int, u seq, r int, g int): (labeq(s, p, e, t, q, f) && labeq(t, q, f, u, r, g)) ==> labeq(s, p, e, u, r, g) [C20]
+//@ lemma lower_idem(c int): lower(lower(c)) == lower(c) [C20]
+
+//@ func isDuplicateName [C20]
+//@   ensures ret0 == labeq(s1, 0, len(s1), s2, 0, len(s2))
+//@   pure
+
+// the header comparison: class, type and owner name (ASCII case-insensitively); the TTL plays no role
+//@ func (*RR_Header).isDuplicate [C20]
+//@   requires r1 != nil
+//@   ensures other: !isptrtype(_r2, RR_Header) ==> !ret0
+//@   exit hdr: isptrtype(_r2, RR_Header) ==> ret0 == (r1.Class == r2.Class && r1.Rrtype == r2.Rrtype && labeq(r1.Name, 0, len(r1.Name), r2.Name, 0, len(r2.Name)))
+//@   pure
+
+//@ func IsDuplicate [C20]
+//@   exit both: ret0 ==> callres("(*RR_Header).isDuplicate")
+
+// OPT pseudo-records never compare equal, not even with themselves or their copy (see known findings)
+//@ func (*OPT).isDuplicate [C20]
+//@   ensures self: ref(r2) == ref(rr) ==> ret0
+
+//@ func (*APLPrefix).equals [C20]
+//@   requires a != nil && b != nil
+//@   exit neg: ret0 ==> a.Negation == b.Negation
+//@   pure
